@@ -429,6 +429,23 @@ class PropScenario(explore.Scenario):
                         % (ev, iface, k[1], name, m['body_plain'][0],
                            var.sig, [store[c] for c in readable],
                            [DECL[c][0] for c in readable])))
+            # the same characters split elsewhere between interface and
+            # property name (after the right pair has been asked for): an
+            # unknown interface with an unknown property, an error
+            for iface, prop in ((k[0] + k[1][:1], k[1][1:]),
+                                (k[0][:-1], k[0][-1:] + k[1]),
+                                ('', k[0] + k[1]), (k[0] + k[1], '')):
+                if (iface, prop) in keys or (iface == '' and any(
+                        kk[1] == prop for kk in keys)):
+                    continue
+                mine, other = self._call(w, name, 'Get', 'ss', [iface, prop])
+                if len(mine) != 1 or mine[0]['type'] != 3:
+                    viol.append((
+                        '%s/get/unknown-answered/shifted-split' % PROP,
+                        'after %r: Get(%r, %r) on /%s (the text of %r + %r '
+                        'split elsewhere) must fail, got %r'
+                        % (ev, iface, prop, name, k[0], k[1],
+                           [_b(m) for m in mine])))
         return viol
 
     def canon(self, w):
